@@ -6,8 +6,8 @@ from checks import lib, mailfam
 ACTS = ["Deliver", "Select", "Noop", "Idle", "Store", "Fetch", "Expunge", "Append"]
 ALL = ACTS + ["Copy", "Move"]
 QUICK = {
-    "exhaustive": [("1sess-2mbox-3msgs-depth6", dict(depth=6, maxid=3, sess=("A",), mbox=("inbox", "b"), acts=ALL))],
-    "simulate": [],
+    "exhaustive": [("1sess-2mbox-3msgs-depth6", dict(depth=6, maxid=3, sess=("A",), mbox=("inbox", "b"), acts=ALL + ["Restart"]))],
+    "simulate": [("2mbox-restart", dict(mbox=("inbox", "b"), maxid=6, maxpend=6, sets="SetsMedium", acts=ALL + ["Restart"]), 40, 24)],
     "random": 110,
     "gen": dict(length=30, weights={"restart": 10, "append": 10, "deliver": 8, "expunge": 8, "store": 12, "copy": 5,
                                     "move": 5, "create": 4, "delete": 3, "rename": 3, "subscribe": 5, "poll": 6,
@@ -15,8 +15,8 @@ QUICK = {
                 world=dict(pack_limit=3, pack_ratio=0.75)),
    }
 THOROUGH = {
-    "exhaustive": [("1sess-2mbox-4msgs-depth7", dict(depth=7, maxid=4, sess=("A",), mbox=("inbox", "b"), acts=ALL))],
-    "simulate": [],
+    "exhaustive": [("1sess-2mbox-4msgs-depth7", dict(depth=7, maxid=4, sess=("A",), mbox=("inbox", "b"), acts=ALL + ["Restart"]))],
+    "simulate": [("2mbox-restart", dict(mbox=("inbox", "b"), maxid=8, maxpend=8, sets="SetsMedium", acts=ALL + ["Restart"]), 1000, 30)],
     "random": 2500,
     "gen": dict(length=45, weights={"restart": 10, "append": 10, "deliver": 8, "expunge": 8, "store": 12, "copy": 5,
                                     "move": 5, "create": 4, "delete": 3, "rename": 3, "subscribe": 5, "poll": 6,
@@ -26,7 +26,7 @@ THOROUGH = {
    }
 
 def fn(ck, a):
-    mailfam.run_family(ck, ["C12."], model_prop="P_C0203", quick=QUICK, thorough=THOROUGH)
+    mailfam.run_family(ck, ["C12."], model_prop="P_C12", quick=QUICK, thorough=THOROUGH)
 
 if __name__ == "__main__":
     lib.main(fn, "C12")
